@@ -137,12 +137,12 @@ KERNELS = [
       bounds={0: (TS_MIN_S, TS_MAX_S), 1: (-999999999, 999999999), 2: (TS_MIN_S, TS_MAX_S), 3: (-999999999, 999999999), 4: (0, 3)}, split=(4, 4), timeout=400),
     K("c07::k_ts_until", pre=lambda a: And(ts_ok(a[0], a[1]), ts_ok(a[2], a[3]), in_range(a[4], 4, 5)),
       claims=[("Timestamp::until(largest = minute / hour)", ts_until_claim)],
-      bounds={0: (TS_MIN_S, TS_MAX_S), 1: (-999999999, 999999999), 2: (TS_MIN_S, TS_MAX_S), 3: (-999999999, 999999999), 4: (4, 5)}, split=(0, 32), timeout=1200, tier="thorough"),
+      bounds={0: (TS_MIN_S, TS_MAX_S), 1: (-999999999, 999999999), 2: (TS_MIN_S, TS_MAX_S), 3: (-999999999, 999999999), 4: (4, 5)}, split=(0, 32), timeout=1200, tier="deep"),
     K("c07::k_date_until", pre=lambda a: And(ref_valid_date(a[0], a[1], a[2]), ref_valid_date(a[3], a[4], a[5]), in_range(a[6], 6, 9),
                                            in_range(a[0], 2099, 2101), in_range(a[3], 2098, 2102), a[6] != 7),
       claims=[(lab + " [years 2098..2102; largest in day, month, year — week is thorough-only]", f) for lab, f in date_claims()],
       bounds={**B_D2, 0: (2099, 2101), 3: (2098, 2102), 6: (6, 9)}, split=(6, 4), timeout=400),
     K("c07::k_date_until", pre=lambda a: And(ref_valid_date(a[0], a[1], a[2]), ref_valid_date(a[3], a[4], a[5]), in_range(a[6], 6, 9)),
       claims=date_claims(),
-      bounds={**B_D2, 6: (6, 9)}, split=(0, 64), timeout=900, tier="thorough"),
+      bounds={**B_D2, 6: (6, 9)}, split=(0, 64), timeout=900, tier="deep"),
 ]
